@@ -377,7 +377,7 @@ func (c *Ctx) finish() int {
 	for n, f := range c.violations {
 		p := f.Plan
 		min, confirmed := shrinkAndConfirm(c, p, f.V)
-		path := filepath.Join(c.Root, "replays", fmt.Sprintf("%s-seed%d-%d.json", c.Check.ID, c.Seed, n))
+		path := filepath.Join(outRoot(c.Root), "replays", fmt.Sprintf("%s-seed%d-%d.json", c.Check.ID, c.Seed, n))
 		_ = os.MkdirAll(filepath.Dir(path), 0o755)
 		rf := replayFile{Property: c.Check.ID, Sig: f.V.Sig, Msg: f.V.Msg, Plan: min, Confirmed: confirmed, VerifSeed: c.Seed}
 		b, _ := json.MarshalIndent(rf, "", " ")
@@ -460,9 +460,17 @@ func (c *Ctx) writeEvidence(wall float64, nvio int) {
 		"violations":  nvio,
 	}
 	b, _ := json.MarshalIndent(ev, "", " ")
-	dir := filepath.Join(c.Root, "evidence")
+	dir := filepath.Join(outRoot(c.Root), "evidence")
 	_ = os.MkdirAll(dir, 0o755)
 	_ = os.WriteFile(filepath.Join(dir, c.Check.ID+".json"), b, 0o644)
+}
+
+// outRoot: where evidence and replay files go (VERIF_OUT overrides it for runs against scratch trees).
+func outRoot(root string) string {
+	if o := os.Getenv("VERIF_OUT"); o != "" {
+		return o
+	}
+	return root
 }
 
 type replayFile struct {
